@@ -191,20 +191,20 @@ def check_bolfi(ctx):
         if ctx.enough():
             break
         c, N, d = rng.randint(1, 4), rng.randint(4, 40), rng.randint(1, 3)
-        w = rng.choice([0, 1, N - 1, rng.randint(0, N - 1)])
+        w = rng.choice([0, 1, N - 1, rng.randint(0, N - 1), rng.randint(0, N - 1), N, N + rng.randint(1, 3)])      # incl. warm-up >= chain length: nothing left
         chains = np.array([[[100 * ci + it2 + 0.25 * p for p in range(d)] for it2 in range(N)] for ci in range(c)])
         pnames = ['p%d' % i for i in range(d)]
         bs = BolfiSample(method_name='BOLFI', chains=chains, parameter_names=pnames, warmup=w, threshold=0.1, n_sim=10, seed=1)
         case = dict(kind='bolfi', n_chains=c, n_iter=N, dim=d, warmup=w)
         ctx.case(case, c >= 2)
-        ctx.count('bolfi.warmup', 'zero' if w == 0 else ('N-1' if w == N - 1 else 'mid'))
+        ctx.count('bolfi.warmup', 'zero' if w == 0 else ('N-1' if w == N - 1 else ('>=N' if w >= N else 'mid')))
         ok = True
         for p in range(d):
             col = np.asarray(bs.outputs[pnames[p]])
             exp = np.concatenate([chains[ci, w:, p] for ci in range(c)])
             if col.shape != exp.shape or not np.array_equal(col, exp):
                 ok = False
-        if not ok or bs.n_samples != c * (N - w):
+        if not ok or bs.n_samples != c * max(N - w, 0):
             ctx.fail_input(case, 'BOLFI sample is not "every chain without exactly its warm-up prefix, chain by chain"')
         reqs.append(dict(op='C16.bolfi', chains=[[[q2j(v) for v in st] for st in ch] for ch in chains.tolist()], warmup=w))
         meta.append((case, np.column_stack([np.asarray(bs.outputs[p]) for p in pnames]).tolist()))
